@@ -30,18 +30,19 @@ type Req struct {
 	Body    []byte
 
 	// signing
-	Auth      string // "header" | "unsigned" | "stream-signed" | "stream-signed-trailer" | "stream-unsigned-trailer" | "presign" | "none"
-	Creds     Creds
-	Region    string
-	Time      time.Time                // zero = now
-	Expires   int                      // presign
-	Chunks    []int                    // chunk sizes for streaming modes (last chunk takes the rest)
-	Trailer   string                   // checksum algorithm for trailer modes: crc32|crc32c|sha1|sha256|crc64nvme
-	Defect    string                   // credential / integrity defect injected after a correct signature was computed
-	WireMut   func(wire []byte) []byte // mutation of the encoded body after encoding/signing
-	DeclLen   *int64                   // overrides x-amz-decoded-content-length (streaming) when set
-	Timeout   time.Duration
-	NoContLen bool
+	Auth       string // "header" | "unsigned" | "stream-signed" | "stream-signed-trailer" | "stream-unsigned-trailer" | "presign" | "none"
+	Creds      Creds
+	Region     string
+	Time       time.Time                // zero = now
+	TimeOffset int                      // seconds added to now when Time is zero
+	Expires    int                      // presign
+	Chunks     []int                    // chunk sizes for streaming modes (last chunk takes the rest)
+	Trailer    string                   // checksum algorithm for trailer modes: crc32|crc32c|sha1|sha256|crc64nvme
+	Defect     string                   // credential / integrity defect injected after a correct signature was computed
+	WireMut    func(wire []byte) []byte // mutation of the encoded body after encoding/signing
+	DeclLen    *int64                   // overrides x-amz-decoded-content-length (streaming) when set
+	Timeout    time.Duration
+	NoContLen  bool
 }
 
 type Resp struct {
@@ -138,7 +139,7 @@ type signed struct {
 func (r *Req) sign(host, payloadHash string, presign bool) signed {
 	t := r.Time
 	if t.IsZero() {
-		t = time.Now()
+		t = time.Now().Add(time.Duration(r.TimeOffset) * time.Second)
 	}
 	t = t.UTC()
 	amzDate := t.Format("20060102T150405Z")
@@ -214,7 +215,6 @@ func (r *Req) prepare(host string) []byte {
 			dl = *r.DeclLen
 		}
 		r.Set("X-Amz-Decoded-Content-Length", strconv.FormatInt(dl, 10))
-		r.Set("Content-Encoding", "aws-chunked")
 		s := r.sign(host, ph, false)
 		r.setAuth(s)
 		wire = EncodeSignedChunks(r.Body, r.Chunks, s.signature, s.key, s.amzDate, s.scope, r.Trailer, r.Auth == "stream-signed-trailer")
@@ -225,7 +225,6 @@ func (r *Req) prepare(host string) []byte {
 			dl = *r.DeclLen
 		}
 		r.Set("X-Amz-Decoded-Content-Length", strconv.FormatInt(dl, 10))
-		r.Set("Content-Encoding", "aws-chunked")
 		s := r.sign(host, "STREAMING-UNSIGNED-PAYLOAD-TRAILER", false)
 		r.setAuth(s)
 		wire = EncodeUnsignedChunks(r.Body, r.Chunks, r.Trailer)
@@ -386,9 +385,20 @@ func applyDefect(r *Req, wire *[]byte) {
 			r.Set("Authorization", auth[:i+10])
 		}
 	case "altered-header":
-		r.Set("X-Amz-Meta-Injected", "x")
-		if d := r.Get("X-Amz-Date"); d != "" && r.Get("X-Amz-Meta-Signed") != "" {
-			r.Set("X-Amz-Meta-Signed", r.Get("X-Amz-Meta-Signed")+"x")
+		// change the value of a header that was signed
+		done := false
+		for i, h := range r.Headers {
+			lk := strings.ToLower(h.K)
+			if strings.HasPrefix(lk, "x-amz-meta-") || lk == "x-amz-acl" || lk == "x-amz-tagging" || lk == "range" || lk == "x-amz-copy-source" {
+				r.Headers[i].V = h.V + "x"
+				done = true
+				break
+			}
+		}
+		if !done {
+			if v := r.Get("X-Amz-Content-Sha256"); v != "" {
+				r.Set("X-Amz-Content-Sha256", flipHex(v))
+			}
 		}
 	case "altered-query":
 		if r.Query == "" {
@@ -401,6 +411,8 @@ func applyDefect(r *Req, wire *[]byte) {
 			w := append([]byte{}, *wire...)
 			w[len(w)/2] ^= 1
 			*wire = w
+		} else {
+			*wire = []byte("x")
 		}
 	case "altered-path":
 		r.Path += "x"
